@@ -7,7 +7,10 @@
 //!  * a strict parser for the two RFC 5280 time forms (`oracle_parse`);
 //!  * interval membership / intersection on i64 seconds for `Validity`;
 //!  * big-integer decimal conversion, minimal DER INTEGER (`crate::der`) and
-//!    big-integer comparison for `Serial`.
+//!    big-integer comparison for `Serial`;
+//!  * for the encoders written into sinks that take fewer octets than offered
+//!    (part 5): harness-written DER as the reference and the law "Ok(()) only
+//!    if every octet of it has arrived".
 //!
 //! chrono is only used to *construct* `Time` values from an instant
 //! (`DateTime::from_timestamp`) and to read the instant back
@@ -1613,6 +1616,621 @@ fn part_serial(ctx: &mut Ctx) {
     ctx.obs("serial_values_with_high_bit", n_top);
 }
 
+//============ Part 5: the encoders into sinks that take fewer octets than offered
+
+/// What a full sink answers.
+#[derive(Clone, Copy, PartialEq, Eq, Debug)]
+enum Edge {
+    /// `Err(..)`, for good
+    Error,
+    /// `Ok(0)`, for good (what a fixed slice does)
+    Zero,
+}
+
+/// An `io::Write` of the harness. Every `write` takes at most as many octets
+/// as the next entry of `pattern` (cycled) allows; there is room for `room`
+/// octets altogether; call number `fail_call` is answered with an error once
+/// (the sink goes on accepting afterwards); every `interrupt_every`-th call is
+/// answered with `ErrorKind::Interrupted` (which `write_all` retries).
+struct Sink {
+    out: Vec<u8>,
+    pattern: Vec<usize>,
+    room: usize,
+    partial_at_edge: bool,
+    at_edge: Edge,
+    fail_call: Option<usize>,
+    interrupt_every: usize,
+    calls: usize,
+    /// calls answered with a hard error or with Ok(0)
+    refused: u64,
+    /// calls that took fewer octets than offered
+    short: u64,
+}
+
+impl Sink {
+    fn new(pattern: Vec<usize>) -> Self {
+        Sink { out: Vec::new(), pattern, room: usize::MAX, partial_at_edge: true, at_edge: Edge::Error, fail_call: None, interrupt_every: 0, calls: 0, refused: 0, short: 0 }
+    }
+
+    fn with_room(pattern: Vec<usize>, room: usize, partial_at_edge: bool, at_edge: Edge) -> Self {
+        Sink { room, partial_at_edge, at_edge, ..Sink::new(pattern) }
+    }
+
+    fn spec(&self) -> serde_json::Value {
+        let per_call: Vec<serde_json::Value> = self.pattern.iter().map(|&k| if k == usize::MAX { json!("everything offered") } else { json!(k) }).collect();
+        json!({
+            "octets_taken_per_call": per_call,
+            "room": if self.room == usize::MAX { json!("unbounded") } else { json!(self.room) },
+            "takes_the_part_that_fits_at_the_edge": self.partial_at_edge,
+            "answer_when_full": format!("{:?}", self.at_edge),
+            "call_answered_with_an_error_once": self.fail_call,
+            "interrupted_every_nth_call": self.interrupt_every,
+            "calls_seen": self.calls,
+            "calls_refused": self.refused,
+            "calls_taken_short": self.short,
+        })
+    }
+}
+
+impl std::io::Write for Sink {
+    fn write(&mut self, buf: &[u8]) -> std::io::Result<usize> {
+        if buf.is_empty() {
+            return Ok(0);
+        }
+        let c = self.calls;
+        self.calls += 1;
+        if self.interrupt_every > 0 && c % self.interrupt_every == self.interrupt_every - 1 {
+            return Err(std::io::Error::new(std::io::ErrorKind::Interrupted, "try again"));
+        }
+        if self.fail_call == Some(c) {
+            self.refused += 1;
+            return Err(std::io::Error::other("sink failed (this call only)"));
+        }
+        let lim = self.pattern[c % self.pattern.len()].max(1);
+        let mut n = buf.len().min(lim);
+        let left = self.room.saturating_sub(self.out.len());
+        if left == 0 || (n > left && !self.partial_at_edge) {
+            self.refused += 1;
+            return match self.at_edge {
+                Edge::Error => Err(std::io::Error::other("sink is full")),
+                Edge::Zero => Ok(0),
+            };
+        }
+        n = n.min(left);
+        if n < buf.len() {
+            self.short += 1;
+        }
+        self.out.extend_from_slice(&buf[..n]);
+        Ok(n)
+    }
+
+    fn flush(&mut self) -> std::io::Result<()> {
+        // no second chance to notice a failure
+        Ok(())
+    }
+}
+
+#[derive(Default)]
+struct SinkStats {
+    runs: u64,
+    ok_complete: u64,
+    err_after_refusal: u64,
+    err_nothing_refused: u64,
+    err_complete: u64,
+    refusal_in_header: u64,
+    refusal_in_content: u64,
+    max_len: u64,
+    by_kind: std::collections::BTreeMap<&'static str, u64>,
+    by_encoder: std::collections::BTreeMap<&'static str, u64>,
+}
+
+/// For every offset of a DER value: which element it belongs to and whether
+/// it is a header (tag / length) or a content octet.
+fn region_labels(der_bytes: &[u8], whole_value: bool) -> Vec<String> {
+    let mut labels = vec!["content".to_string(); der_bytes.len()];
+    if !whole_value {
+        return labels;
+    }
+    fn go(n: &der::Node, path: &str, labels: &mut [String]) {
+        for l in labels.iter_mut().take(n.content_start).skip(n.start) {
+            *l = format!("{path}header");
+        }
+        if n.children.is_empty() {
+            for l in labels.iter_mut().take(n.content_end).skip(n.content_start) {
+                *l = format!("{path}content");
+            }
+        }
+        for (i, c) in n.children.iter().enumerate() {
+            go(c, &format!("{path}{i}."), labels);
+        }
+    }
+    if let Some(root) = der::parse(der_bytes) {
+        go(&root, "", &mut labels);
+    }
+    labels
+}
+
+/// The law of this part: an encoder that reports success has delivered
+/// exactly the octets it delivers into a `Vec`. What it reports when the sink
+/// made trouble is an error of some kind; an error although the sink took
+/// everything (slowly) is left open and counted.
+#[allow(clippy::too_many_arguments)]
+fn judge_sink(
+    ctx: &mut Ctx,
+    st: &mut SinkStats,
+    enc: &'static str,
+    kind: &'static str,
+    lit: &dyn Fn() -> serde_json::Value,
+    spec: &dyn Fn() -> serde_json::Value,
+    expected: &[u8],
+    res: Option<std::io::Result<()>>,
+    arrived: &[u8],
+    refused: bool,
+) {
+    st.runs += 1;
+    *st.by_kind.entry(kind).or_insert(0) += 1;
+    match res {
+        None => {}
+        Some(Ok(())) if arrived == expected => st.ok_complete += 1,
+        Some(Ok(())) => {
+            let what = match arrived.len().cmp(&expected.len()) {
+                Ordering::Less => "fewer-octets",
+                Ordering::Equal => "other-octets",
+                Ordering::Greater => "more-octets",
+            };
+            let at = arrived.iter().zip(expected.iter()).position(|(a, b)| a != b).unwrap_or(arrived.len().min(expected.len()));
+            // two families of sinks: those that only ever take part of what is offered (nothing is
+            // refused; the count returned by `write` matters) and those that refuse at some point
+            // (an error or Ok(0) comes back; it must reach the caller)
+            let family = match kind {
+                "short-writes" | "short-writes-varying" | "bufwriter-over-short-writes" | "interrupting-sink" => "partial-writes",
+                _ => "refusing-sink",
+            };
+            ctx.violation(
+                &format!("C17:sink:{enc}:{family}:ok-with-{what}"),
+                &format!(
+                    "{enc} written through write_encoded into a sink ({kind}) returned Ok(()) although {} octets arrived where a Vec receives {} (first difference at offset {at}): the value on the other side is not the DER of this value",
+                    arrived.len(),
+                    expected.len()
+                ),
+                json!({"value": lit(), "encoder": enc, "sink_kind": kind, "sink": spec(), "result": "Ok(())",
+                       "octets_into_a_vec": hex(expected), "octets_arrived": hex(arrived), "first_difference_at": at}),
+            );
+        }
+        Some(Err(e)) => {
+            if arrived == expected {
+                st.err_complete += 1;
+            } else if refused {
+                st.err_after_refusal += 1;
+            } else {
+                st.err_nothing_refused += 1;
+                let text = e.to_string();
+                ctx.sample("sink-error-although-nothing-was-refused", || json!({"value": lit(), "encoder": enc, "sink_kind": kind, "sink": spec(), "error": text}));
+            }
+        }
+    }
+}
+
+/// `Ctx::no_panic` for a closure that borrows what the detail wants to show:
+/// the closure has been run under `core::catch` already.
+fn guarded<T>(ctx: &mut Ctx, what: &str, outcome: Result<T, String>, detail: impl FnOnce() -> serde_json::Value) -> Option<T> {
+    match outcome {
+        Ok(v) => Some(v),
+        Err(text) => {
+            let sig = format!("C17:panic:{}:{}", what, crate::core::panic_location(&text));
+            ctx.violation(&sig, &format!("panic in {}: {}", what, text), detail());
+            None
+        }
+    }
+}
+
+fn dedup_sorted(mut v: Vec<usize>) -> Vec<usize> {
+    v.sort_unstable();
+    v.dedup();
+    v
+}
+
+/// One value through one encoder into every sink of the part.
+/// `whole_value`: the output is a complete TLV (false for content octets only).
+#[allow(clippy::too_many_arguments)]
+fn sink_sweep<V: Values>(
+    ctx: &mut Ctx,
+    st: &mut SinkStats,
+    rng: &mut crate::core::Rng,
+    enc: &'static str,
+    lit: &dyn Fn() -> serde_json::Value,
+    v: &V,
+    oracle: Option<&[u8]>,
+    whole_value: bool,
+    dense: bool,
+) {
+    let what = format!("write_encoded:{enc}");
+    // the reference: the same encoder into a Vec
+    let mut reference: Vec<u8> = Vec::new();
+    ctx.eval();
+    match ctx.no_panic(&what, || json!({"value": lit(), "encoder": enc, "sink": "Vec<u8>"}), || v.write_encoded(Mode::Der, &mut reference)) {
+        Some(Ok(())) => {}
+        Some(Err(e)) => {
+            ctx.violation(&format!("C17:sink:{enc}:vec:error"), "encoding into a Vec returns an error", json!({"value": lit(), "encoder": enc, "error": e.to_string()}));
+            return;
+        }
+        None => return,
+    }
+    if let Some(o) = oracle {
+        if reference != o {
+            // parts 1, 3 and 4 report this under their own signatures; the sinks are not judged against a wrong reference
+            ctx.violation(
+                &format!("C17:sink:{enc}:vec:not-the-der-of-the-value"),
+                &format!("{enc} writes {} into a Vec, the DER of the value is {}", hex(&reference), hex(o)),
+                json!({"value": lit(), "encoder": enc, "octets_into_a_vec": hex(&reference), "oracle": hex(o)}),
+            );
+            return;
+        }
+    }
+    let expected = reference.as_slice();
+    let n = expected.len();
+    *st.by_encoder.entry(enc).or_insert(0) += 1;
+    st.max_len = st.max_len.max(n as u64);
+    let labels = region_labels(expected, whole_value);
+    let every = usize::MAX;
+
+    // (A) a sink that never refuses and takes k octets per call, (B) seed-chosen patterns
+    let ks: Vec<usize> = if dense { (1..=n + 1).collect() } else { dedup_sorted(vec![1, n.saturating_sub(1).max(1)]) };
+    let mut patterns: Vec<Vec<usize>> = ks.iter().map(|&k| vec![k]).collect();
+    for _ in 0..if dense { 4 } else { 1 } {
+        let len = 2 + rng.usize_below(3);
+        patterns.push((0..len).map(|_| 1 + rng.usize_below(n.max(1))).collect());
+    }
+    if dense {
+        patterns.push(vec![every, 1]);
+        patterns.push(vec![1, every]);
+    }
+    for pattern in patterns {
+        let kind = if pattern.len() == 1 { "short-writes" } else { "short-writes-varying" };
+        let mut sink = Sink::new(pattern);
+        let res = guarded(ctx, &what, crate::core::catch(|| v.write_encoded(Mode::Der, &mut sink)), || json!({"value": lit(), "encoder": enc, "sink": sink.spec()}));
+        let cut = if sink.short > 0 { "some-calls-taken-short" } else { "no-call-taken-short" };
+        ctx.sig(&format!("sink {enc} {kind} {cut} -> {}", if matches!(res, Some(Ok(()))) { "ok" } else { "err" }));
+        judge_sink(ctx, st, enc, kind, lit, &|| sink.spec(), expected, res, &sink.out, sink.refused > 0);
+    }
+
+    // (C) sinks with room for `room` octets that refuse everything after that
+    let rooms: Vec<usize> = if dense { (0..=n).collect() } else { dedup_sorted(vec![0, 1, 2.min(n), n / 2, n.saturating_sub(1), n]) };
+    let variants: &[(usize, bool, Edge)] = if dense {
+        &[(usize::MAX, false, Edge::Error), (usize::MAX, true, Edge::Error), (1, true, Edge::Error), (3, true, Edge::Error), (usize::MAX, true, Edge::Zero), (2, false, Edge::Zero)]
+    } else {
+        &[(usize::MAX, false, Edge::Error), (2, true, Edge::Zero)]
+    };
+    for &room in &rooms {
+        for (vi, &(per_call, partial, edge)) in variants.iter().enumerate() {
+            if !dense && vi == 1 && room != n / 2 {
+                continue;
+            }
+            let kind = if edge == Edge::Error { "failing-sink" } else { "sink-answering-zero" };
+            let mut sink = Sink::with_room(vec![per_call], room, partial, edge);
+            let res = guarded(ctx, &what, crate::core::catch(|| v.write_encoded(Mode::Der, &mut sink)), || json!({"value": lit(), "encoder": enc, "sink": sink.spec()}));
+            if room < n {
+                let region = labels[room].as_str();
+                if region.ends_with("header") {
+                    st.refusal_in_header += 1;
+                } else {
+                    st.refusal_in_content += 1;
+                }
+                ctx.sig(&format!("sink {enc} {kind} refuses-in {region} -> {}", if matches!(res, Some(Ok(()))) { "ok" } else { "err" }));
+            } else {
+                ctx.sig(&format!("sink {enc} {kind} room-for-everything -> {}", if matches!(res, Some(Ok(()))) { "ok" } else { "err" }));
+            }
+            judge_sink(ctx, st, enc, kind, lit, &|| sink.spec(), expected, res, &sink.out, sink.refused > 0);
+        }
+    }
+
+    // (D) a sink that answers one call with an error and then carries on
+    for per_call in if dense { vec![usize::MAX, 2] } else { vec![usize::MAX] } {
+        let mut probe = Sink::new(vec![per_call]);
+        let calls = match crate::core::catch(|| v.write_encoded(Mode::Der, &mut probe)) {
+            Ok(_) => probe.calls,
+            Err(_) => 0,
+        };
+        let which: Vec<usize> = if dense { (0..calls).collect() } else { dedup_sorted(vec![0, calls.saturating_sub(1)]).into_iter().filter(|c| *c < calls).collect() };
+        for c in which {
+            let mut sink = Sink::new(vec![per_call]);
+            sink.fail_call = Some(c);
+            let res = guarded(ctx, &what, crate::core::catch(|| v.write_encoded(Mode::Der, &mut sink)), || json!({"value": lit(), "encoder": enc, "sink": sink.spec()}));
+            let region = labels.get(sink.out.len().min(n.saturating_sub(1))).map(|s| s.as_str()).unwrap_or("content");
+            ctx.sig(&format!("sink {enc} error-on-one-call in {region} -> {}", if matches!(res, Some(Ok(()))) { "ok" } else { "err" }));
+            judge_sink(ctx, st, enc, "error-on-one-call", lit, &|| sink.spec(), expected, res, &sink.out, sink.refused > 0);
+        }
+    }
+
+    // (E) fixed slices and (F) cursors over fixed slices of every size up to a little more than needed
+    let sizes: Vec<usize> = if dense { (0..=n + 2).collect() } else { dedup_sorted(vec![0, n.saturating_sub(1), n]) };
+    for &size in &sizes {
+        let fit = if size < n { "too-small" } else if size == n { "exact" } else { "larger" };
+        {
+            let mut buf = vec![0xa5u8; size];
+            let mut target: &mut [u8] = &mut buf[..];
+            let res = ctx.no_panic(&what, || json!({"value": lit(), "encoder": enc, "sink": format!("&mut [u8] of {size} octets")}), || v.write_encoded(Mode::Der, &mut target));
+            let written = size - target.len();
+            ctx.sig(&format!("sink {enc} fixed-slice {fit} -> {}", if matches!(res, Some(Ok(()))) { "ok" } else { "err" }));
+            judge_sink(ctx, st, enc, "fixed-slice", lit, &|| json!({"kind": "&mut [u8]", "octets_of_room": size, "octets_written": written}), expected, res, &buf[..written], size < n);
+        }
+        {
+            let mut buf = vec![0xa5u8; size];
+            let mut cur = std::io::Cursor::new(&mut buf[..]);
+            let res = ctx.no_panic(&what, || json!({"value": lit(), "encoder": enc, "sink": format!("Cursor<&mut [u8]> of {size} octets")}), || v.write_encoded(Mode::Der, &mut cur));
+            let written = (cur.position() as usize).min(size);
+            ctx.sig(&format!("sink {enc} cursor-over-slice {fit} -> {}", if matches!(res, Some(Ok(()))) { "ok" } else { "err" }));
+            judge_sink(ctx, st, enc, "cursor-over-slice", lit, &|| json!({"kind": "Cursor<&mut [u8]>", "octets_of_room": size, "octets_written": written}), expected, res, &buf[..written], size < n);
+        }
+    }
+
+    // (G) std's BufWriter (hands large writes through, with the short count) over a short-writing sink
+    let bufs: &[(usize, usize)] = if dense { &[(1, 1), (4, 3), (8, 5), (16, 7)] } else { &[(4, 3)] };
+    for &(cap, k) in bufs {
+        let mut bw = std::io::BufWriter::with_capacity(cap, Sink::new(vec![k]));
+        let res = ctx.no_panic(&what, || json!({"value": lit(), "encoder": enc, "sink": format!("BufWriter({cap}) over {k} octets per call")}), || v.write_encoded(Mode::Der, &mut bw));
+        let flushed = std::io::Write::flush(&mut bw).is_ok();
+        let inner = bw.get_ref();
+        if flushed {
+            ctx.sig(&format!("sink {enc} bufwriter cap{cap} -> {}", if matches!(res, Some(Ok(()))) { "ok" } else { "err" }));
+            judge_sink(ctx, st, enc, "bufwriter-over-short-writes", lit, &|| json!({"kind": "std::io::BufWriter", "capacity": cap, "inner": inner.spec()}), expected, res, &inner.out, inner.refused > 0);
+        }
+    }
+
+    // (H) sinks that answer some calls with ErrorKind::Interrupted
+    let ints: &[(usize, usize)] = if dense { &[(2, usize::MAX), (3, 1), (2, 5)] } else { &[(2, 3)] };
+    for &(nth, per_call) in ints {
+        let mut sink = Sink::new(vec![per_call]);
+        sink.interrupt_every = nth;
+        let res = guarded(ctx, &what, crate::core::catch(|| v.write_encoded(Mode::Der, &mut sink)), || json!({"value": lit(), "encoder": enc, "sink": sink.spec()}));
+        ctx.sig(&format!("sink {enc} interrupting -> {}", if matches!(res, Some(Ok(()))) { "ok" } else { "err" }));
+        // an encoder may give up on Interrupted (then it says so); that counts as trouble made by the sink
+        judge_sink(ctx, st, enc, "interrupting-sink", lit, &|| sink.spec(), expected, res, &sink.out, true);
+    }
+}
+
+/// The content octets of a serial alone (`PrimitiveContent::write_encoded`),
+/// as an enclosing encoder calls it after having written tag and length.
+struct SerialContent(Serial);
+
+impl Values for SerialContent {
+    fn encoded_len(&self, mode: Mode) -> usize {
+        PrimitiveContent::encoded_len(&self.0, mode)
+    }
+
+    fn write_encoded<W: std::io::Write>(&self, mode: Mode, target: &mut W) -> Result<(), std::io::Error> {
+        PrimitiveContent::write_encoded(&self.0, mode, target)
+    }
+}
+
+fn time_text(four_digit_year: bool, y: i64, m: u32, d: u32, h: u32, mi: u32, s: u32) -> String {
+    if four_digit_year {
+        format!("{:04}{:02}{:02}{:02}{:02}{:02}Z", y, m, d, h, mi, s)
+    } else {
+        format!("{:02}{:02}{:02}{:02}{:02}{:02}Z", y % 100, m, d, h, mi, s)
+    }
+}
+
+/// The DER the statement asks for: UTCTime for 1950-2049, GeneralizedTime otherwise.
+fn oracle_time_der(y: i64, m: u32, d: u32, h: u32, mi: u32, s: u32) -> Vec<u8> {
+    let tag = canonical_tag(y);
+    der::tlv(tag, time_text(tag == T_GEN, y, m, d, h, mi, s).as_bytes())
+}
+
+type Civil = (i64, u32, u32, u32, u32, u32);
+
+fn civil_text(c: Civil) -> String {
+    format!("{:04}-{:02}-{:02}T{:02}:{:02}:{:02}Z", c.0, c.1, c.2, c.3, c.4, c.5)
+}
+
+fn civil_time(ctx: &mut Ctx, c: Civil) -> Option<(i64, Time)> {
+    let instant = instant_of(c.0, c.1, c.2, c.3, c.4, c.5);
+    match time_from_instant(instant) {
+        Some(t) => Some((instant, t)),
+        None => {
+            ctx.obs("instants_not_constructible", 1);
+            None
+        }
+    }
+}
+
+const SINK_VARIED: u8 = 1;
+const SINK_GENERALIZED: u8 = 2;
+const SINK_UTC: u8 = 4;
+
+/// One second through the time encoders selected by `which`.
+fn sink_time(ctx: &mut Ctx, st: &mut SinkStats, rng: &mut crate::core::Rng, c: Civil, which: u8, dense: bool) {
+    let Some((instant, t)) = civil_time(ctx, c) else { return };
+    let (y, m, d, h, mi, s) = c;
+    let date = civil_text(c);
+    let lit = || json!({"date": date, "instant": instant});
+    let utc_year = canonical_tag(y) == T_UTC;
+    if which & SINK_VARIED != 0 {
+        let canon = oracle_time_der(y, m, d, h, mi, s);
+        let enc = if utc_year { "encode_varied(utctime)" } else { "encode_varied(generalizedtime)" };
+        sink_sweep(ctx, st, rng, enc, &lit, &t.encode_varied(), Some(&canon), true, dense);
+    }
+    if which & SINK_GENERALIZED != 0 {
+        let gen = der::tlv(T_GEN, time_text(true, y, m, d, h, mi, s).as_bytes());
+        sink_sweep(ctx, st, rng, "encode_generalized_time", &lit, &t.encode_generalized_time(), Some(&gen), true, dense);
+    }
+    if which & SINK_UTC != 0 {
+        // outside 1950-2049 the two-digit form is ambiguous by design: only its independence of the sink is judged there
+        let utc = der::tlv(T_UTC, time_text(false, y, m, d, h, mi, s).as_bytes());
+        sink_sweep(ctx, st, rng, "encode_utc_time", &lit, &t.encode_utc_time(), if utc_year { Some(&utc) } else { None }, true, dense);
+    }
+}
+
+/// The window of two seconds (ordered): two time writers inside one element.
+fn sink_validity(ctx: &mut Ctx, st: &mut SinkStats, rng: &mut crate::core::Rng, a: Civil, b: Civil, dense: bool) {
+    let (Some((ai, at)), Some((bi, bt))) = (civil_time(ctx, a), civil_time(ctx, b)) else { return };
+    let ((nbc, nbi, nbt), (nac, nai, nat)) = if ai <= bi { ((a, ai, at), (b, bi, bt)) } else { ((b, bi, bt), (a, ai, at)) };
+    let forms = format!("{}+{}", if canonical_tag(nbc.0) == T_UTC { "utc" } else { "gen" }, if canonical_tag(nac.0) == T_UTC { "utc" } else { "gen" });
+    let lit = || json!({"not_before": civil_text(nbc), "not_after": civil_text(nac), "not_before_instant": nbi, "not_after_instant": nai, "forms": forms});
+    let want = der::seq(&[&oracle_time_der(nbc.0, nbc.1, nbc.2, nbc.3, nbc.4, nbc.5), &oracle_time_der(nac.0, nac.1, nac.2, nac.3, nac.4, nac.5)]);
+    sink_sweep(ctx, st, rng, "Validity::encode", &lit, &Validity::new(nbt, nat).encode(), Some(&want), true, dense);
+}
+
+/// A CRL entry: the serial writer and a time writer inside one element.
+fn sink_crl_entry(ctx: &mut Ctx, st: &mut SinkStats, rng: &mut crate::core::Rng, sv: &[u8; 20], c: Civil, dense: bool) {
+    use rpki::repository::crl::CrlEntry;
+    let Ok(ser) = Serial::from_array(*sv) else { return };
+    let Some((instant, t)) = civil_time(ctx, c) else { return };
+    let lit = || json!({"serial_octets": hex(sv), "revocation_date": civil_text(c), "instant": instant});
+    let want = der::seq(&[&der::uint_be(sv), &oracle_time_der(c.0, c.1, c.2, c.3, c.4, c.5)]);
+    sink_sweep(ctx, st, rng, "CrlEntry::encode", &lit, &CrlEntry::new(ser, t).encode(), Some(&want), true, dense);
+}
+
+const SINK_SERIAL_VALUE: u8 = 1;
+const SINK_SERIAL_CONTENT: u8 = 2;
+
+fn sink_serial(ctx: &mut Ctx, st: &mut SinkStats, rng: &mut crate::core::Rng, v: &[u8; 20], which: u8, dense: bool) -> bool {
+    let Ok(s) = Serial::from_array(*v) else { return false };
+    let lit = || json!({"serial_octets": hex(v), "serial_decimal": big_decimal(v)});
+    let want = der::uint_be(v);
+    if which & SINK_SERIAL_VALUE != 0 {
+        sink_sweep(ctx, st, rng, "Serial::encode", &lit, &s.encode(), Some(&want), true, dense);
+    }
+    if which & SINK_SERIAL_CONTENT != 0 {
+        sink_sweep(ctx, st, rng, "Serial::write_encoded(content)", &lit, &SerialContent(s), Some(&want[2..]), false, dense);
+    }
+    true
+}
+
+fn serial_with(len: usize, lead: u8) -> [u8; 20] {
+    let mut v = [0u8; 20];
+    if len == 0 {
+        return v;
+    }
+    v[20 - len] = lead;
+    for (k, b) in v.iter_mut().enumerate().skip(20 - len + 1) {
+        *b = (k as u8).wrapping_mul(37) | 1;
+    }
+    v
+}
+
+fn part_sinks(ctx: &mut Ctx) {
+    let dense = matches!(ctx.stage, Stage::Native | Stage::Asan);
+    let nshards = ctx.nshards.max(1);
+    let mut st = SinkStats::default();
+    let mut rng = ctx.rng("sinks");
+    let st = &mut st;
+    let rng = &mut rng;
+
+    if dense {
+        // serials: every significant length class, pad octet needed or not, then seed-chosen ones
+        let mut fixed: Vec<[u8; 20]> = vec![[0u8; 20]];
+        for len in [1usize, 2, 8, 9, 16, 19, 20] {
+            for lead in [0x01u8, 0x7f, 0x80, 0xff] {
+                if len == 20 && lead >= 0x80 {
+                    continue;
+                }
+                fixed.push(serial_with(len, lead));
+            }
+        }
+        let mut serials: Vec<[u8; 20]> = fixed.into_iter().enumerate().filter(|(i, _)| (*i as u64) % nshards == ctx.shard).map(|(_, v)| v).collect();
+        for _ in 0..ctx.stage_budget((3_000, 40_000), 160, 0, 0) {
+            let mut v = [0u8; 20];
+            let len = 1 + rng.usize_below(20);
+            let r = rng.bytes(len);
+            v[20 - len..].copy_from_slice(&r);
+            v[0] &= 0x7f;
+            serials.push(v);
+        }
+        for v in &serials {
+            sink_serial(ctx, st, rng, v, SINK_SERIAL_VALUE | SINK_SERIAL_CONTENT, dense);
+        }
+
+        // times: the pivots, the range ends, short and long years, then seed-chosen seconds
+        let fixed: &[Civil] = &[
+            (1, 1, 1, 0, 0, 0),
+            (999, 12, 31, 23, 59, 59),
+            (1000, 1, 1, 0, 0, 0),
+            (1949, 12, 31, 23, 59, 59),
+            (1950, 1, 1, 0, 0, 0),
+            (1999, 12, 31, 23, 59, 59),
+            (2000, 2, 29, 12, 30, 31),
+            (2024, 6, 15, 7, 8, 9),
+            (2049, 12, 31, 23, 59, 59),
+            (2050, 1, 1, 0, 0, 0),
+            (2100, 2, 28, 1, 2, 3),
+            (9999, 12, 31, 23, 59, 59),
+        ];
+        let mut civils: Vec<Civil> = fixed.iter().enumerate().filter(|(i, _)| (*i as u64) % nshards == ctx.shard).map(|(_, c)| *c).collect();
+        for _ in 0..ctx.stage_budget((6_000, 120_000), 240, 0, 0) {
+            let y = match rng.below(4) {
+                0 | 1 => 1950 + rng.below(100) as i64,
+                2 => *rng.pick(&[1i64, 9, 99, 999, 1949, 2050, 9999]),
+                _ => 1 + rng.below(9999) as i64,
+            };
+            let m = 1 + rng.below(12) as u32;
+            let d = 1 + rng.below(days_in_month(y, m) as u64) as u32;
+            civils.push((y, m, d, rng.below(24) as u32, rng.below(60) as u32, rng.below(60) as u32));
+        }
+        let mut prev: Option<Civil> = None;
+        for (idx, &c) in civils.iter().enumerate() {
+            sink_time(ctx, st, rng, c, SINK_VARIED | SINK_GENERALIZED | SINK_UTC, dense);
+            if let Some(p) = prev {
+                sink_validity(ctx, st, rng, p, c, dense);
+            }
+            if !serials.is_empty() {
+                sink_crl_entry(ctx, st, rng, &serials[idx % serials.len()], c, dense);
+            }
+            prev = Some(c);
+        }
+    } else {
+        // interpreter stages: eight sweeps in all (one per encoder), thinned, dealt out to the shards
+        for k in 0..8u64 {
+            if k % nshards != ctx.shard {
+                continue;
+            }
+            match k {
+                0 => sink_time(ctx, st, rng, (2049, 12, 31, 23, 59, 59), SINK_VARIED, dense),
+                1 => sink_time(ctx, st, rng, (2050, 1, 1, 0, 0, 0), SINK_VARIED, dense),
+                2 => sink_time(ctx, st, rng, (1950, 1, 1, 0, 0, 0), SINK_UTC, dense),
+                3 => sink_time(ctx, st, rng, (999, 12, 31, 23, 59, 59), SINK_GENERALIZED, dense),
+                4 => sink_validity(ctx, st, rng, (1949, 12, 31, 23, 59, 59), (2024, 2, 29, 12, 0, 0), dense),
+                5 => sink_crl_entry(ctx, st, rng, &serial_with(9, 0x80), (2024, 6, 15, 7, 8, 9), dense),
+                6 => {
+                    sink_serial(ctx, st, rng, &serial_with(20, 0x7f), SINK_SERIAL_VALUE, dense);
+                }
+                _ => {
+                    sink_serial(ctx, st, rng, &serial_with(1, 0x80), SINK_SERIAL_CONTENT, dense);
+                }
+            }
+        }
+    }
+
+    ctx.evals(st.runs);
+    ctx.obs("sink_runs", st.runs);
+    for (k, n) in &st.by_kind {
+        ctx.obs(&format!("sink_runs:{k}"), *n);
+    }
+    for (k, n) in &st.by_encoder {
+        ctx.obs(&format!("sink_values:{k}"), *n);
+    }
+    ctx.obs("sink_ok_and_every_octet_arrived", st.ok_complete);
+    ctx.obs("sink_error_reported_after_the_sink_refused", st.err_after_refusal);
+    ctx.obs("sink_error_although_every_octet_arrived", st.err_complete);
+    ctx.obs("sink_error_although_nothing_was_refused", st.err_nothing_refused);
+    ctx.obs("sink_refusal_at_a_tag_or_length_octet", st.refusal_in_header);
+    ctx.obs("sink_refusal_at_a_content_octet", st.refusal_in_content);
+    ctx.obs_max("sink_longest_encoding", st.max_len);
+    if st.runs == 0 {
+        ctx.notes.push("C17: the sink workload did not run in this shard".into());
+    }
+    if ctx.shard == 0 && dense {
+        if let Some(t) = time_from_instant(instant_of(2024, 6, 15, 7, 8, 9)) {
+            let mut sink = Sink::with_room(vec![4], 9, true, Edge::Error);
+            let res = t.encode_varied().write_encoded(Mode::Der, &mut sink).map_err(|e| e.to_string());
+            ctx.sample("sink", || json!({"date": "2024-06-15T07:08:09Z", "encoder": "encode_varied", "sink": sink.spec(), "result": format!("{:?}", res), "octets_arrived": hex(&sink.out)}));
+            let mut sink = Sink::new(vec![1]);
+            let res = t.encode_varied().write_encoded(Mode::Der, &mut sink).map_err(|e| e.to_string());
+            ctx.sample("sink", || json!({"date": "2024-06-15T07:08:09Z", "encoder": "encode_varied", "sink": sink.spec(), "result": format!("{:?}", res), "octets_arrived": hex(&sink.out)}));
+        }
+    }
+}
+
 //============ run =============================================================
 
 pub fn run(ctx: &mut Ctx) {
@@ -1628,4 +2246,6 @@ pub fn run(ctx: &mut Ctx) {
     part_validity(ctx);
     ctx.breadcrumb("C17 serial");
     part_serial(ctx);
+    ctx.breadcrumb("C17 sinks");
+    part_sinks(ctx);
 }
